@@ -20,6 +20,7 @@ import GwModel.Middleware
 import GwModel.GwQuery
 import GwModel.MergeDirs
 import GwModel.UrlMap
+import GwModel.MergeLocs
 /-! gwdrv: one JSON object per line in, one per line out (DESIGN §2.2). Core + Lean.Data.Json only. -/
 open Lean Codec
 
@@ -373,8 +374,16 @@ def runUrlMap (j : Json) : Json :=
   let (_, outs) := (getArr j "ops").foldl step ([], [])
   Json.mkObj [("answers", Json.arr outs.toArray)]
 
+/-- the location lists of two definitions of one directive through `Ml.mergeLocs` -/
+def runMergeLocs (j : Json) : Json :=
+  let strs (k : String) : List String := (getArr j k).map fun x => x.getStr?.toOption.getD ""
+  match Ml.mergeLocs Ml.isTypeSystem (strs "a") (strs "b") with
+  | some r => Json.mkObj [("ok", Json.arr (r.map Json.str).toArray)]
+  | none => Json.mkObj [("refused", .bool true)]
+
 def handle (j : Json) : Json :=
   match getStr j "op" with
+  | "mergelocs" => runMergeLocs j
   | "urlmap" => runUrlMap j
   | "mergedirs" => runMergeDirs j
   | "mono" => Json.mkObj [("data", encVal (Mono.mono (decCase j)))]
